@@ -9,13 +9,15 @@ PROPERTY = 'C17'
 EXPLANATION = (
     "R1 index spaces: the occurrence lookup _unique_inds must return index sets in the row space of its argument; an "
     "array that was sorted (in place or by np.sort) has the index space 'positions in the sorted copy', so "
-    "where(sorted == v) used as row indices of the distance / neighbour matrices is a violation. R2 provenance and "
+    "where(sorted == v) used as row indices of the distance / neighbour matrices is a violation. "
+    "R3: within one neighbour column the rows marked as claimants are one index per unique candidate, the argmin over "
+    "that candidate's occurrences (an equality test against the minimum would mark every tying row). R2 provenance and "
     "range: each entry of the final assignment is either inds[i, winner[i]] under the guard '< y.shape[0]' (cKDTree "
     "marks missing neighbours with n) or -1; x_inds = where(final > -1), y_inds = final[x_inds] (equal length by "
     "construction); K and the distance bound reach the tree query. Not decided: global injectivity of the greedy "
     "column-by-column assignment; K=1 (scipy returns 1-D arrays).")
 RULE_TEXT = "one obligation per clause of the matcher"
-FLOORS = {'C17.R1': 1, 'C17.R2': 4}
+FLOORS = {'C17.R1': 1, 'C17.R2': 4, 'C17.R3': 1}
 PINNED_EXPECT = [('C17.R1', 'emd.cycles._unique_inds', 'row space')]
 
 ROW_PRESERVING = {'numpy.asanyarray', 'numpy.asarray', 'numpy.array', 'numpy.ravel'}
@@ -26,6 +28,7 @@ SORTING = {'numpy.sort', 'numpy.unique', 'numpy.argsort', 'builtins.sorted', 'nu
 def run(ctx):
     rule_index_space(ctx, 'C17.R1')
     rule_provenance(ctx, 'C17.R2')
+    rule_one_claimant(ctx, 'C17.R3')
 
 
 def _space(t, param):
@@ -152,8 +155,9 @@ def rule_provenance(ctx, rid):
     if v[0] == 'tuple' and len(v[1]) == 2:
         xi, yi = v[1]
         ok2 = xi[0] == 'sub' and xi[2] == C(0) and xi[1][0] == 'call' and xi[1][1] == 'numpy.where' \
-            and xi[1][2][0][0] == 'cmp' and xi[1][2][0][1] == '>' and xi[1][2][0][3] == C(-1) \
-            and yi == ('sub', xi[1][2][0][2], xi)
+            and xi[1][2][0][0] == 'cmp' and (xi[1][2][0][1], xi[1][2][0][3]) in (('>', C(-1)), ('>=', C(0)),
+                                                                                   ('!=', C(-1))) \
+            and yi == ('sub', xi[1][2][0][2], xi)       # integer entries: > -1, >= 0 and (entries >= -1) != -1 agree
     if ok2:
         ctx.passed(rid, fi, c2)
     else:
@@ -178,3 +182,55 @@ def rule_provenance(ctx, rid):
         ctx.passed(rid, fi, c4)
     else:
         ctx.violation(rid, fi, c4, 'no loop over range(K)')
+
+
+def rule_one_claimant(ctx, rid):
+    """Within one neighbour column a candidate (row of y) is claimed by exactly one row of x: the rows marked for the
+    column are one index per unique candidate, namely the occurrence with the smallest distance (argmin picks one
+    even on ties).  A selection by an equality test (`D == best`) marks every tying row."""
+    P = ctx.P
+    fi = P.func('emd.cycles.kdt_match')
+    exits = [e for e in Evaluator(P).run(fi) if e.kind == 'return']
+    c = 'one claimant per candidate and neighbour column (argmin over the occurrences, ties included)'
+    verdicts = []
+    for e in exits:
+        for ls in e.state.loops:
+            if ls.kind != 'for' or not (ls.iter_term[0] == 'call' and ls.iter_term[1] == 'builtins.range'
+                                        and ls.iter_term[2] == (S('K'),)):
+                continue
+            for kind, b in ls.body_states:
+                for eff in b.effects:
+                    if eff[0] != 'setitem' or eff[1][0] != 'call' or eff[1][1] not in ('numpy.zeros', 'numpy.zeros_like'):
+                        continue
+                    idx = eff[2]
+                    verdicts.append(_claimants(idx, ls.var))
+    if not verdicts:
+        ctx.undecided(rid, fi, c, 'no per-column marking of claimants found')
+    elif any(v[0] == 'bad' for v in verdicts):
+        ctx.violation(rid, fi, c, [v[1] for v in verdicts if v[0] == 'bad'][0])
+    elif any(v[0] == 'unknown' for v in verdicts):
+        ctx.undecided(rid, fi, c, [v[1] for v in verdicts if v[0] == 'unknown'][0])
+    else:
+        ctx.passed(rid, fi, c, '%d marking state(s)' % len(verdicts))
+
+
+def _claimants(idx, col):
+    if idx[0] == 'comp' and len(idx[3]) == 1 and not idx[3][0][2]:
+        elt = idx[2]
+        if elt[0] == 'sub':
+            occ, k = elt[1], elt[2]
+            mins = [t for t in subterms(k) if (t[0] == 'call' and t[1] in ('numpy.argmin', 'numpy.nanargmin'))
+                    or (t[0] == 'meth' and t[1] == 'argmin')]
+            if mins:
+                arg = mins[0][2][0] if mins[0][0] == 'call' else mins[0][2]
+                if occ in set(subterms(arg)) and col in set(subterms(arg)):
+                    return ('ok', '')
+                return ('bad', 'the closest occurrence is not searched among the distances of that candidate\'s own '
+                        'occurrences in this column: %s' % show(arg)[:80])
+        return ('unknown', 'cannot read the per-candidate selection %s' % show(elt)[:80])
+    eqs = [t for t in subterms(idx) if t[0] == 'call' and t[1] == 'numpy.where' and t[2] and t[2][0][0] == 'cmp'
+           and t[2][0][1] == '==']
+    if eqs:
+        return ('bad', 'claimants are selected by an equality test (%s): every row that ties for the smallest '
+                'distance claims the same candidate, so one row of y can be matched twice' % show(eqs[0])[:90])
+    return ('unknown', 'cannot read the rows marked for the column: %s' % show(idx)[:80])
